@@ -307,6 +307,36 @@ func (s *Sim) mineBlock() {
 	}
 }
 
+// redeliverKnown re-applies the notification of a known transaction through
+// the store API (InsertTx + AddCredit for every credit), as confirmed in its
+// current block or as unconfirmed (a stale mempool notification).
+func (s *Sim) redeliverKnown() {
+	var known []int64
+	for t := range s.F.Conf {
+		known = append(known, t)
+	}
+	for t := range s.F.Unconf {
+		known = append(known, t)
+	}
+	if len(known) == 0 {
+		return
+	}
+	sort.Slice(known, func(i, j int) bool { return known[i] < known[j] })
+	t := known[s.r.Intn(len(known))]
+	e := Event{K: "redeliver", T: t, H: -1}
+	if b, ok := s.F.Conf[t]; ok && s.r.Chance(2, 3) {
+		e.H, e.B = b[0], b[1]
+		for _, blk := range s.chain {
+			if blk.id == b[1] {
+				e.BT = blk.time
+			}
+		}
+	}
+	if s.emit(e) {
+		s.Tags["redeliver_with_credits"]++
+	}
+}
+
 func (s *Sim) reorg() {
 	if len(s.chain) == 0 {
 		return
@@ -318,13 +348,27 @@ func (s *Sim) reorg() {
 	removed := s.chain[len(s.chain)-d:]
 	s.chain = s.chain[:len(s.chain)-d]
 	low := removed[0].height
+	// the node's chain also holds blocks without wallet transactions: the
+	// rollback height may be any height above the last surviving block
+	floor := int64(0)
+	if len(s.chain) > 0 {
+		floor = s.chain[len(s.chain)-1].height + 1
+	}
+	if floor < low && s.r.Chance(1, 2) {
+		low = int64(s.r.Range(int(floor), int(low)))
+		s.Tags["rollback_at_height_without_wallet_tx"]++
+	}
 	// wallet notifications: one rollback at the lowest height, or tip-down
 	switch s.r.Pick(2, 2, 1) {
 	case 0:
 		s.emit(Event{K: "disconnect", H: low})
 	case 1:
 		for i := len(removed) - 1; i >= 0; i-- {
-			s.emit(Event{K: "disconnect", H: removed[i].height})
+			h := removed[i].height
+			if i == 0 {
+				h = low
+			}
+			s.emit(Event{K: "disconnect", H: h})
 		}
 	case 2:
 		s.emit(Event{K: "disconnect", H: low})
@@ -403,7 +447,7 @@ func (s *Sim) leaseEvent() {
 // Run generates a history.
 func (s *Sim) Run(cfg GenConfig) {
 	for len(s.Events) < cfg.MaxEvents {
-		w := []int{6, 4, 2, 1, 0, 1}
+		w := []int{6, 4, 2, 1, 0, 1, 1}
 		if cfg.Leases {
 			w[4] = 5
 		}
@@ -440,6 +484,8 @@ func (s *Sim) Run(cfg GenConfig) {
 			}
 		case 4:
 			s.leaseEvent()
+		case 6:
+			s.redeliverKnown()
 		case 5: // re-announce a mempool transaction (possibly unknown to the wallet again)
 			var ms []int64
 			for m := range s.mempool {
